@@ -50,7 +50,8 @@ class RoundSolidFinder(FinderBase):
         outer edge of the shape.
 
         This only includes two of the vertices that define shell blocks!"""
-        shell_vertices = self._find_from_faces(self._get_sketch(end_face).shell)
-        core_vertices = self._find_from_faces(self._get_sketch(end_face).core)
+        # the outer edge of a shell face is the one on the shape's outer patch ('right'),
+        # between points 1 and 2; this also holds for hollow shapes that have no core
+        outer_points = [point for face in self._get_sketch(end_face).shell for point in face.points[1:3]]
 
-        return shell_vertices - core_vertices
+        return self._find_from_points(outer_points)
